@@ -4,10 +4,11 @@
   proved for mark steps (`merge_succeeds_marks`), for flat replace steps in every schema
   (`merge_succeeds_replace_flat`), for replace steps with open slices over any ranges in every schema when
   the second step continues after the first one's content (`merge_succeeds_replace_forward`), and for both
-  `merge` branches in schemas whose `compatible_content` is transitive (`merge_succeeds_replace`; in the
-  second branch the statement is false without a guard, `merge_needs_guard`).  Helper lemmas:
-  Proofs/Merge.lean, Proofs/MarkMerge.lean, Proofs/FlatReplace.lean, Proofs/MergeOpen.lean,
-  Proofs/MergeForward.lean.
+  `merge` branches under the per-case guard `mergeCompat` (`merge_succeeds_replace_backward`), which holds
+  in particular in schemas whose `compatible_content` is transitive (`mergeCompat_of_trans`,
+  `merge_succeeds_replace`; in the second branch the statement is false without a guard,
+  `merge_needs_guard`).  Helper lemmas: Proofs/Merge.lean, Proofs/MarkMerge.lean, Proofs/FlatReplace.lean,
+  Proofs/MergeOpen.lean, Proofs/MergeForward.lean, Proofs/MergeGuard.lean.
 -/
 import PM.Step
 import Proofs.StepToks
@@ -16,6 +17,7 @@ import Proofs.MarkMerge
 import Proofs.FlatReplace
 import Proofs.MergeOpen
 import Proofs.MergeForward
+import Proofs.MergeGuard
 namespace PM.C16
 open PM
 
@@ -517,6 +519,147 @@ theorem merge_succeeds_replace_forward (S : Schema) (d d1 d2 : Node)
   simp only [hsl, Schema.apply, Bool.false_eq_true, if_false, Schema.fromReplace, Schema.replace, key,
     Except.map]
 
+/-! ### The second `merge` branch under a per-case guard
+
+`compatTransB` asks for transitivity of `compatible_content` on the whole schema.  What the merged step of
+the second branch really needs is one chain in one document: the merged step joins the ancestors of the
+first step's `to` onto the ancestors of the second step's `from` at every level above its slice — the depths
+`1 … depth(first.from)` of the *original* document — while the pair only joined each of them onto the
+ancestors of the first step's `from`.  `mergeCompat S d s1 s2` (PM/MergeGuard.lean) is exactly that list of
+`check_join`s (`true` in the first branch); it is decidable from the document and the two steps, it follows
+from `compatTransB` when the pair applies (`mergeCompat_of_trans`), and it is what fails in
+`merge_needs_guard`.  The harness evaluates it with the real code's `ResolvedPos.node` /
+`compatible_content` (exact tie, driver op `mergeCompat`) and checks "guard true and the pair applies ⇒ the
+real merged step applies and gives the pair's document" in every schema, transitive or not. -/
+
+/-- **a merged replace step applies whenever the two steps it replaces apply in sequence and the per-case
+    guard holds, and yields the pair's result** — both `merge` branches (the guard is `true` in the first),
+    open slices, ranges across node boundaries, any schema -/
+theorem merge_succeeds_replace_backward (S : Schema) (d d1 d2 : Node)
+    (f t f' t' : Nat) (sl sl' : Slice) (m : Step)
+    (hg : mergeCompat S d (.replace f t sl false) (.replace f' t' sl' false) = true)
+    (hv : S.checkNode d = true) (hn : fnorm d.kids = true)
+    (hsn : fnorm sl.content = true) (hsn' : fnorm sl'.content = true)
+    (hp : openValid S sl.openStart sl.openEnd sl.content = true)
+    (hp' : openValid S sl'.openStart sl'.openEnd sl'.content = true)
+    (h1 : S.apply (.replace f t sl false) d = .ok d1)
+    (h2 : S.apply (.replace f' t' sl' false) d1 = .ok d2)
+    (hm : (Step.replace f t sl false).merge (.replace f' t' sl' false) = some m)
+    (ha1 : alignedAt d1.kids f = true ∧ alignedAt d1.kids (f + sl.size.toNat) = true)
+    (ha2 : alignedAt d2.kids f' = true ∧ alignedAt d2.kids (f' + sl'.size.toNat) = true) :
+    S.apply m d = .ok d2 := by
+  obtain ⟨ty, at_, mk, K, K1, rfl, rfl, hr1⟩ := fromReplace_parts S d d1 f t _ (apply_replace_from _ _ _ _ _ _ _ h1)
+  obtain ⟨ty', at', mk', K1', K2, he, rfl, hr2⟩ :=
+    fromReplace_parts S _ d2 f' t' _ (apply_replace_from _ _ _ _ _ _ _ h2)
+  cases he
+  simp only [Node.kids] at hn ha1 ha2
+  simp only [checkNode_elem, Bool.and_eq_true] at hv
+  obtain ⟨_, _, hwf1⟩ := replaceKids_guards S ty K f t sl K1 hr1
+  obtain ⟨_, _, hwf2⟩ := replaceKids_guards S ty K1 f' t' sl' K2 hr2
+  obtain ⟨hl1, hs1⟩ := Slice.toks_length_of_wf hwf1
+  obtain ⟨hl2, hs2⟩ := Slice.toks_length_of_wf hwf2
+  obtain ⟨c, a, e⟩ := sl
+  obtain ⟨c', a', b⟩ := sl'
+  simp only at hsn hsn' hp hp'
+  simp only [mergeCompat, Node.kids] at hg
+  have hw1 := hwf1
+  have hw2 := hwf2
+  simp only [Slice.wf, Bool.and_eq_true, decide_eq_true_eq] at hw1 hw2
+  simp only [Step.merge, Bool.or_self, Bool.false_eq_true, if_false] at hm
+  split at hm
+  · -- the second step starts where the first one's content ends
+    rename_i hc
+    simp only [Bool.and_eq_true, decide_eq_true_eq] at hc
+    obtain ⟨⟨hc1, rfl⟩, rfl⟩ := hc
+    simp only [Option.some.injEq] at hm
+    subst hm
+    have hf' : f' = f + (Slice.mk c a 0).toks.length := by omega
+    have hsl : (if (Slice.mk c a 0).size + (Slice.mk c' 0 b).size = 0 then Slice.empty
+        else ⟨fappend c c', a, b⟩) = ⟨fappend c c', a, b⟩ := by
+      split
+      · rename_i hz
+        have e1 : c = [] := sliceToks_empty_content c a 0 hsn hw1.1 hw1.2 (.inr rfl) (by omega)
+        have e2 : c' = [] := sliceToks_empty_content c' 0 b hsn' hw2.1 hw2.2 (.inl rfl) (by omega)
+        subst e1; subst e2
+        have : a = 0 := by simpa [spineL] using hw1.1
+        subst this
+        have : b = 0 := by simpa [spineR] using hw2.2
+        subst this
+        rfl
+      · rfl
+    have key := replaceKids_merge_open_fwd S ty K K1 K2 f t f' t' c c' a b hv.1.1 hv.2 hn hsn hsn' hp hp'
+      hr1 hr2 hf' ha1.1 ⟨ha2.1, by rw [hl2]; exact ha2.2⟩
+    simp only [hsl, Schema.apply, Bool.false_eq_true, if_false, Schema.fromReplace, Schema.replace, key,
+      Except.map]
+  · split at hm
+    · -- the second step ends where the first one starts
+      rename_i hnc hc
+      rw [if_neg hnc] at hg
+      simp only [Bool.and_eq_true, decide_eq_true_eq] at hc
+      obtain ⟨⟨rfl, rfl⟩, rfl⟩ := hc
+      simp only [Option.some.injEq] at hm
+      subst hm
+      have hsl : (if (Slice.mk c 0 e).size + (Slice.mk c' a' 0).size = 0 then Slice.empty
+          else ⟨fappend c' c, a', e⟩) = ⟨fappend c' c, a', e⟩ := by
+        split
+        · rename_i hz
+          have e1 : c = [] := sliceToks_empty_content c 0 e hsn hw1.1 hw1.2 (.inl rfl) (by omega)
+          have e2 : c' = [] := sliceToks_empty_content c' a' 0 hsn' hw2.1 hw2.2 (.inr rfl) (by omega)
+          subst e1; subst e2
+          have : e = 0 := by simpa [spineR] using hw1.2
+          subst this
+          have : a' = 0 := by simpa [spineL] using hw2.1
+          subst this
+          rfl
+        · rfl
+      have key := replaceKids_merge_open_left_guarded S ty K K1 K2 t' t f' c c' a' e hg hv.1.1 hv.2 hn hsn hsn'
+        hp hp' hr1 hr2 (by rw [hl1]; exact ha1.2) ⟨ha2.1, by rw [hl2]; exact ha2.2⟩
+      simp only [hsl, Schema.apply, Bool.false_eq_true, if_false, Schema.fromReplace, Schema.replace, key,
+        Except.map]
+    · simp at hm
+
+
+/-- **the schema guard implies the per-case guard** whenever the pair applies and merges -/
+theorem mergeCompat_of_trans (S : Schema) (htr : compatTransB S = true) (d d1 d2 : Node)
+    (f t f' t' : Nat) (sl sl' : Slice) (m : Step)
+    (hv : S.checkNode d = true) (hn : fnorm d.kids = true)
+    (hsn : fnorm sl.content = true) (hsn' : fnorm sl'.content = true)
+    (hp : openValid S sl.openStart sl.openEnd sl.content = true)
+    (hp' : openValid S sl'.openStart sl'.openEnd sl'.content = true)
+    (h1 : S.apply (.replace f t sl false) d = .ok d1)
+    (h2 : S.apply (.replace f' t' sl' false) d1 = .ok d2)
+    (hm : (Step.replace f t sl false).merge (.replace f' t' sl' false) = some m)
+    (ha1 : alignedAt d1.kids f = true ∧ alignedAt d1.kids (f + sl.size.toNat) = true)
+    (ha2 : alignedAt d2.kids f' = true ∧ alignedAt d2.kids (f' + sl'.size.toNat) = true) :
+    mergeCompat S d (.replace f t sl false) (.replace f' t' sl' false) = true := by
+  obtain ⟨ty, at_, mk, K, K1, rfl, rfl, hr1⟩ := fromReplace_parts S d d1 f t _ (apply_replace_from _ _ _ _ _ _ _ h1)
+  obtain ⟨ty', at', mk', K1', K2, he, rfl, hr2⟩ :=
+    fromReplace_parts S _ d2 f' t' _ (apply_replace_from _ _ _ _ _ _ _ h2)
+  cases he
+  simp only [Node.kids] at hn ha1 ha2
+  simp only [checkNode_elem, Bool.and_eq_true] at hv
+  have htrP := compatTrans_of_B S htr
+  obtain ⟨_, _, hwf1⟩ := replaceKids_guards S ty K f t sl K1 hr1
+  obtain ⟨_, _, hwf2⟩ := replaceKids_guards S ty K1 f' t' sl' K2 hr2
+  obtain ⟨hl1, hs1⟩ := Slice.toks_length_of_wf hwf1
+  obtain ⟨hl2, hs2⟩ := Slice.toks_length_of_wf hwf2
+  obtain ⟨c, a, e⟩ := sl
+  obtain ⟨c', a', b⟩ := sl'
+  simp only at hsn hsn' hp hp'
+  simp only [mergeCompat, Node.kids]
+  simp only [Step.merge, Bool.or_self, Bool.false_eq_true, if_false] at hm
+  split at hm
+  · rename_i hc
+    rw [if_pos hc]
+  · split at hm
+    · rename_i hnc hc
+      rw [if_neg hnc]
+      simp only [Bool.and_eq_true, decide_eq_true_eq] at hc
+      obtain ⟨⟨rfl, rfl⟩, rfl⟩ := hc
+      exact ancCompat_of_trans_pair S htrP ty K K1 K2 t' t f' c c' a' e hv.1.1 hv.2 hn hsn hsn'
+        hp hp' hr1 hr2 (by rw [hl1]; exact ha1.2) ⟨ha2.1, by rw [hl2]; exact ha2.2⟩
+    · simp at hm
+
 /-! The guard `compatTransB` of `merge_succeeds_replace` cannot be dropped (second `merge` branch, deleting
     backwards): a schema in which `compatible_content` is not transitive — `doc "(A|B|C)*"`, `A "p q*"`,
     `B "q+"`, `C "(p|q)*"`, `p`, `q` leaves: `A ~ C` (both can start with `p`), `C ~ B` (`q`), but not
@@ -635,6 +778,62 @@ example : compatTransB brS = false ∧ brS.apply (.replace 3 8 Slice.empty false
     (by simp [w1, lp, lq, Node.kids, Slice.empty, Slice.size, alignedAt])
     (by simp [w2, lp, lq, Node.kids, Slice.empty, Slice.size, alignedAt])
   simpa [Slice.empty, Slice.size] using this
+/-! Non-vacuity of `merge_succeeds_replace_backward` in the same non-transitive schema, second `merge`
+    branch: in `doc(A(p, q), C(q), C(q))` delete 6 … 8 (joins the second `C` onto the first), then 3 … 6
+    (joins the result onto `A`); the guard asks for `A ~ C` only and holds, the merged step "delete 3 … 8"
+    applies and gives `doc(A(p, q, q))`.  In `merge_needs_guard` the guard is false. -/
+private def w1b : Node := .elem 0 [] [] [.elem 1 [] [] [lp, lq], .elem 3 [] [] [lq, lq]]
+
+private theorem bw1 : brS.apply (.replace 6 8 Slice.empty false) w0 = .ok w1b := by
+  have c33 : brS.compatibleContent 3 3 = true := by decide
+  have v3 : brS.validContent 3 [Node.leaf 5 [] [], Node.leaf 5 [] []] = true := by decide
+  have v0 : brS.validContent 0 [Node.elem 1 [] [] [Node.leaf 4 [] [], Node.leaf 5 [] []],
+      Node.elem 3 [] [] [Node.leaf 5 [] [], Node.leaf 5 [] []]] = true := by decide
+  have fa3 : fromArray [Node.leaf 5 [] [], Node.leaf 5 [] []] = [Node.leaf 5 [] [], Node.leaf 5 [] []] := by rfl
+  have fa0 : fromArray [Node.elem 1 [] [] [Node.leaf 4 [] [], Node.leaf 5 [] []],
+        Node.elem 3 [] [] [Node.leaf 5 [] [], Node.leaf 5 [] []]]
+      = [Node.elem 1 [] [] [Node.leaf 4 [] [], Node.leaf 5 [] []],
+        Node.elem 3 [] [] [Node.leaf 5 [] [], Node.leaf 5 [] []]] := by rfl
+  simp [Schema.apply, Schema.fromReplace, Schema.replace, w0, w1b, lp, lq, Slice.empty, replaceKids, inRange,
+    depthAt, Slice.wf, spineL, spineR, outer, atLevel, twoWay, splitRight, Schema.close, fa3, fa0, v3, v0,
+    c33, Except.map]
+
+private theorem bw2 : brS.apply (.replace 3 6 Slice.empty false) w1b = .ok w2 := by
+  have c13 : brS.compatibleContent 3 1 = true := by decide
+  have v1 : brS.validContent 1 [Node.leaf 4 [] [], Node.leaf 5 [] [], Node.leaf 5 [] []] = true := by decide
+  have v0 : brS.validContent 0 [Node.elem 1 [] [] [Node.leaf 4 [] [], Node.leaf 5 [] [], Node.leaf 5 [] []]]
+      = true := by decide
+  have fa1 : fromArray [Node.leaf 4 [] [], Node.leaf 5 [] [], Node.leaf 5 [] []]
+      = [Node.leaf 4 [] [], Node.leaf 5 [] [], Node.leaf 5 [] []] := by rfl
+  have fa0 : fromArray [Node.elem 1 [] [] [Node.leaf 4 [] [], Node.leaf 5 [] [], Node.leaf 5 [] []]]
+      = [Node.elem 1 [] [] [Node.leaf 4 [] [], Node.leaf 5 [] [], Node.leaf 5 [] []]] := by rfl
+  simp [Schema.apply, Schema.fromReplace, Schema.replace, w1b, w2, lp, lq, Slice.empty, replaceKids, inRange,
+    depthAt, Slice.wf, spineL, spineR, outer, atLevel, twoWay, splitRight, Schema.close, fa1, fa0, v1, v0,
+    c13, Except.map]
+
+private theorem guard_w0 :
+    mergeCompat brS w0 (.replace 6 8 Slice.empty false) (.replace 3 6 Slice.empty false) = true := by
+  have c13 : brS.compatibleContent 1 3 = true := by decide
+  simp [mergeCompat, w0, lp, lq, Node.kids, Slice.empty, Slice.size, depthAt, ancCompat, splitRight, c13]
+
+/-- the per-case guard is false in the counterexample `merge_needs_guard` -/
+theorem merge_needs_guard_mergeCompat :
+    mergeCompat brS g0 (.replace 6 8 Slice.empty false) (.replace 3 6 Slice.empty false) = false := by
+  have c12 : brS.compatibleContent 1 2 = false := by decide
+  simp [mergeCompat, g0, lp, lq, Node.kids, Slice.empty, Slice.size, depthAt, ancCompat, splitRight, c12]
+
+example : compatTransB brS = false ∧ brS.apply (.replace 3 8 Slice.empty false) w0 = .ok w2 := by
+  refine ⟨by decide, ?_⟩
+  have := merge_succeeds_replace_backward brS w0 w1b w2 6 8 3 6 Slice.empty Slice.empty _ guard_w0
+    (by simp [w0, lp, lq, Schema.checkNode, Schema.checkKids]; decide)
+    (by simp [w0, lp, lq, Node.kids, fnorm, fnormKids, Node.norm, chainOk, adjOk])
+    (by simp [Slice.empty, fnorm, chainOk]) (by simp [Slice.empty, fnorm, chainOk])
+    (by simp [Slice.empty, openValid, rightOpenValid, Schema.checkKids])
+    (by simp [Slice.empty, openValid, rightOpenValid, Schema.checkKids])
+    bw1 bw2 rfl
+    (by simp [w1b, lp, lq, Node.kids, Slice.empty, Slice.size, alignedAt])
+    (by simp [w2, lp, lq, Node.kids, Slice.empty, Slice.size, alignedAt])
+  simpa [Step.merge, Slice.empty, Slice.size] using this
 end NeedsGuard
 
 end PM.C16
